@@ -334,6 +334,11 @@ def c03_case(ctx, book, case_seed):
     except Exception as exc:
         if not wb.raised_outside_harness(exc):
             raise
+        if any(o[0] == 'x' for o in before.values()) or \
+                any(wb.outcome(comp.evaluate, a)[0] == 'x' for a in scan(book)['formulas']):
+            # (the writes left a cell which cannot be evaluated: a save evaluates it and fails the same way)
+            ctx.count('real_models_with_failing_cells_not_saved')
+            return
         ctx.violation(f'real-workbook/save-or-load-raises/{fmt}', f'{book}: {wb.describe(exc)}', case)
         return
     finally:
